@@ -15,11 +15,17 @@ Spec: Parser.tla.  TLC
       the palette holds the letters at both ends of the ASCII / Latin-1 / Cyrillic case ranges with their non-letter
       neighbours, and both languages must return the same case-folded terms; a filter on field f is read with the type
       of the untitled entry of f's declared type list wherever it stands, f.title with that entry's (QueryType);
+      the transcription of the pipe part (parsePipes / parsePipeFields / parseFieldList / parseCompositeToken over the lexer's
+      tokens, and the tail of ParseSeqQL with its "lexer is not end" panic) ends, for every tail of tokens - bar, fields,
+      except, commas, bare names, quoted tokens of the three kinds incl. the empty one and those spelling a keyword or a
+      separator, with and without spaces - in the outcome and field list of the declarative reference RefPipes, never in
+      the panic (PipesEqualReference);
   (b) emits every rune string of the phrase walk as the value of a text and of a keyword field in each context and
       spelling (quoted with ", ' or `, or bare where the lexer allows it), with the truth table over its words;
       emits every (tree, parenthesisation, spelling) with the truth table of the tree, every well-formed
-      lexeme sequence of the grammar walk with its table, and every hostile lexeme sequence of the totality
-      walk with the allowed outcomes {ok, err}.
+      lexeme sequence of the grammar walk with its table, every pipe tail behind each kind of filter expression with
+      the outcome (query / error), the pipes and the truth table the reference requires, and every hostile lexeme
+      sequence of the totality walk with the allowed outcomes {ok, err}.
 The Go driver `parserdrv` feeds the spelled strings to parser.ParseSeqQL / ParseQuery /
 ParseAggregationFilter under the declared mapping of the case (written as a mapping file and converted by the real
 seq.ReadMapping: single-type fields, multi-type fields with the main type first / last / in the middle), the nil
@@ -56,11 +62,20 @@ def _plan(quick, seed):
         ("randwalkB", "Parser_randwalkB.cfg", dict(simulate="num=%d" % (40 if quick else 400), depth=17, **sim), [], True),
         ("walkU", "Parser_walkU3q.cfg" if quick else "Parser_walkU4.cfg", dict(workers=nw), [], True),
         ("randwalkU", "Parser_randwalkU.cfg", dict(simulate="num=%d" % (40 if quick else 400), depth=17, **sim), [], True),
+        # (vi) the pipe part: every tail of <= 3 (thorough 4) tokens behind  nothing / | fields / | fields except / | fields a |  over the 15-token
+        # pipe alphabet in 5 spacings, with the outcome and field list of the reference grammar; seeded random tails of
+        # <= 12 tokens; hostile walk over pieces (quote characters, backslash, comment, 0xFF) behind  f:x|fields
+        ("pipeT", "Parser_pipeT3.cfg" if quick else "Parser_pipeT4.cfg", dict(workers=nw), [], True),
+        ("randpipe", "Parser_randpipe.cfg", dict(simulate="num=%d" % (8 if quick else 60), depth=13, **sim), [], True),
+        ("walkP", "Parser_walkP3q.cfg" if quick else "Parser_walkP4.cfg", dict(workers=nw), [], True),
         ("store", "Parser_walkS.cfg", dict(workers=2), ["-store"], True),
         ("deep", "Parser_deepq.cfg" if quick else "Parser_deep.cfg", dict(workers=2), ["-hang", "300s", "-deepworkers"], True),
     ]
     if not quick:
         p.insert(1, ("pn3", "Parser_pn3.cfg", dict(workers=vlib.NCPU), [], False))
+        # every tail of the quick scope with each of the three quote kinds at each position
+        p.append(("pipeQ", "Parser_pipeQ3.cfg", dict(workers=nw), [], True))
+        p.append(("randwalkP", "Parser_randwalkP.cfg", dict(simulate="num=400", depth=17, **sim), [], True))
     return p
 
 
@@ -78,6 +93,13 @@ def _sig(label, m):
             return "totality:%s:map=%s:hang" % (h.group(1), h.group(2))
         pm = re.search(r"^(panic|fatal error): (.*)$", err, re.M)
         return "totality:crash:%s" % ((pm.group(2)[:60] if pm else "driver died"),)
+    if what == "pipe grammar":
+        got = str(m.get("got", ""))
+        kind, _, msg = got.partition(": ")
+        return "pipes:%s:map=%s:%s where the grammar says %s:%s" % (
+            m.get("fn"), m.get("map"), kind, str(m.get("exp", "")).split(" ")[0], re.sub(r"[0-9]+", "N", msg)[:50].strip())
+    if what == "pipes":
+        return "pipes:%s:map=%s:field list" % (m.get("fn"), m.get("map"))
     return "meaning:%s:%s" % (what, m.get("fn"))
 
 
@@ -96,6 +118,9 @@ def _sample(label, c):
     if c.get("kind") == "sem":
         return {"family": label, "kind": "sem", "query": _show(c["q"]), "parsers": c["langs"], "atoms": c["atoms"],
                 "required_truth_table": c["tt"]}
+    if c.get("kind") == "pipe":
+        return {"family": label, "kind": "pipe", "query": _show(c["q"]), "tail_tokens": c["toks"], "required_outcome": c["exp"],
+                "required_pipes": c["pipes"], "atoms": c["atoms"], "required_truth_table": c["tt"]}
     if c.get("kind") == "deep":
         return {"family": label, "kind": "deep", "shape": c["shape"], "n": c["n"], "allowed": c["allowed"]}
     return {"family": label, "kind": "tot", "prefix": _show(c["pre"]), "extended_by_up_to": c["k"],
@@ -117,8 +142,8 @@ def run(ctx):
         r = vlib.run_tlc(ctx, "Parser.tla", cfg, case_file=cf, timeout=3400, **kw)
         return label, cfg, r, cf
 
-    # TLC runs are independent; three at a time keep the 16 cores busy through the JVM start-ups
-    with concurrent.futures.ThreadPoolExecutor(max_workers=3) as ex:
+    # TLC runs are independent; four at a time keep the 16 cores busy through the JVM start-ups (most runs are short)
+    with concurrent.futures.ThreadPoolExecutor(max_workers=4) as ex:
         results = list(ex.map(tlc, plan))
     ctx.cov["states"] = sum(x["distinct"] for x in ctx.cov["tlc_runs"])
     ctx.cov["transitions"] = sum(x["generated"] for x in ctx.cov["tlc_runs"])
@@ -174,7 +199,8 @@ def run(ctx):
         if head and len(ctx.cov["samples"]) < 10:
             ctx.cov["samples"].append(_sample(label, json.loads(head[-1])))
     # one report per signature (entry point, mapping type, outcome), with the shortest input that shows it
-    for sig in sorted(found):
+    # (a panic / hang first: only the first few are printed)
+    for sig in sorted(found, key=lambda x: (not x.startswith("totality:"), x)):
         m, cnt, fams = found[sig]
         m["inputs_with_this_signature"] = cnt
         m["families"] = fams
@@ -182,10 +208,12 @@ def run(ctx):
                 "crash": "the driver process died or a call did not return inside a parser entry point",
                 "truth table": "the returned AST does not select the documents the written expression denotes",
                 "returned tree": "the returned AST is not a tree over the atoms of the expression",
-                "parsers disagree": "ParseQuery and ParseSeqQL return different terms for the same text"}.get(
+                "parsers disagree": "ParseQuery and ParseSeqQL return different terms for the same text",
+                "pipe grammar": "ParseSeqQL accepts / rejects a query whose pipe part the reference grammar (Parser.tla RefPipes) rejects / accepts",
+                "pipes": "the pipes of the returned query are not the field list the query spells (Parser.tla RefPipes)"}.get(
                     m.get("what"), m.get("what", ""))
-        if m.get("what") == "returned tree":
-            what += " (%s)" % m.get("got")
+        if m.get("what") in ("returned tree", "pipe grammar", "pipes"):
+            what += " (got %s, required %s)" % (m.get("got"), m.get("exp")) if m.get("exp") else " (%s)" % m.get("got")
         ctx.violation(sig, m, what="%s; input %s (%d inputs)" % (what, m.get("q"), cnt))
     ctx.cov["traces_validated_against_impl"] = tot["cases"]
     ctx.cov["evaluations"] = tot["evals"]
@@ -216,6 +244,16 @@ def run(ctx):
         "backslash, #, newline, 0xFF, U+E000, *, parentheses, keywords) and B (ranges, in, pipes, commas), plus seeded random walks of "
         "length <= 16 with full fan-out at every step, x 12 mappings of field f (incl. text+keyword declared main-first and main-last) x {ParseSeqQL, ParseQuery} + ParseAggregationFilter; "
         "non-trivial tot input = accepted by at least one parser/mapping; input_strings = strings built from the cases (distinct within the exhaustive walks; random walks can repeat short prefixes). "
+        "pipe (pipeT/pipeQ/randpipe): every tail of <= 3 (thorough 4) lexer tokens appended to nothing, to '| fields', to '| fields except' and to '| fields a |' (a second pipe) over the 15-token "
+        "alphabet of Parser.tla section (vi) (bar, fields, except, comma, names a b, - * :, and QUOTED tokens with content c / empty / | / , / fields / except), "
+        "written in 5 spacings (space before every token / only between two name parts / before every second token, both phases / none: words run together and "
+        "names are glued) with the quote kind (\", ', `) rotating by position (thorough: also all three rotations of the <= 3 scope), keywords in lower and upper case, "
+        "behind one of 8 filter expressions (*, a:x, not, or of and-not, in(...), quoted text phrase, parenthesised and, wildcard value) rotating with the tail, "
+        "plus seeded random tails of <= 12 tokens with full fan-out; required of ParseSeqQL (declared and nil mapping): the outcome query / error of the reference grammar "
+        "RefPipes, for a query exactly its pipes (field list, except flag) and the truth table of the filter; ParseQuery / ParseAggregationFilter on the same string: query or error; "
+        "non-trivial pipe case = a query with a pipe. "
+        "walkP (thorough also randwalkP): tot walks over an 18-piece alphabet (bar, fields, except, comma, two names, space, the three quote characters, backslash, *, -, #, newline, :, (, 0xFF) "
+        "started behind 'f:x|fields '. "
         "store: every sequence of length <= 3 over a 10-lexeme alphabet through GrpcV1.Search (SeqQL and legacy) of real stores, one per mapping type. "
         "deep: nesting-depth classes open^n f:x close^n for 5 shapes (parentheses, unclosed parentheses, not, not(, and-not chain) x n in {1000, 3*10^6} "
         "(thorough also 10^5, 10^6), each call in a child process so that a fatal stack overflow is observed as an outcome.")
@@ -231,6 +269,9 @@ def run(ctx):
         "a leaf of the returned tree that is none of the words of the expression is reported as a violation (the parser never adds conditions of its own)",
         "shape equality with the TLA+ transcription (PFilter/PExpr + PNot) is measured (ast_shape_equal_to_transcription) but a pure shape difference is reported as drift, not as a violation",
         "TLC evaluates the reference grammar (WF/RefTree) correctly",
+        "the pipe part is modelled over whole lexer tokens (Parser.tla section vi): quoted names are the contents c, empty, |, \",\", fields, except; escapes, wildcards and "
+        "comments inside a field list are reached by the totality walks walkP / randwalkP only (outcome query | error, no required field list); the pipe tails are not sent through the store",
+        "that a tail which does not begin with a bar is an error is decided with one space between the filter expression and the tail",
     ]
 
 
